@@ -1,6 +1,7 @@
 import RSocketModel.Props.C04
 import RSocketModel.Transport
 import RSocketModel.Gen.TcpStepFn
+import RSocketModel.Gen.MsgStepFn
 /-!
 # C04 — the transports' receive loops around the parser
 
@@ -152,6 +153,21 @@ theorem c04_tcp_step_matches_source (r : Read) :
   | err => rfl
   | eof => rfl
   | data c => cases c <;> simp [stepKind, Gen.tcp_next]
+
+/-- **the message loop's per-entry decision is the source's**: `msgQueueLoop` dispatches a queue entry
+exactly when `AbstractMessagingTransport.next_frame_generator` (compiled from its source,
+`Gen/MsgStepFn.lean`) yields it — everything that is not an exception object, in particular the
+parser's invalid-frame marker — and fails exactly when it raises the entry -/
+theorem c04_msg_step_matches_source {β : Type} (q : QItem β) (rest : List (QItem β)) :
+    (Gen.msg_next (match q with | .exc => true | .item _ => false) = .raisesIt ↔ msgQueueLoop (q :: rest) = ([], true)) ∧
+    (∀ x, q = .item x → Gen.msg_next false = .yieldsIt ∧ (msgQueueLoop (q :: rest)).1 = x :: (msgQueueLoop rest).1) := by
+  constructor
+  · cases q with
+    | exc => simp [Gen.msg_next, msgQueueLoop]
+    | item x => simp [Gen.msg_next, msgQueueLoop]
+  · intro x hx
+    subst hx
+    simp [Gen.msg_next, msgQueueLoop]
 
 /-- non-vacuity: two frames, the second arriving in the same read as the end of the first and
 followed at once by the end of the stream -/
